@@ -103,7 +103,7 @@ fn delete_one(ga: bool, ia: u32, gb: bool, ib: u32) {
 harness_sync! { #[kani::unwind(10)] fn c07_delete_group_keeps_consumer_same_id_t() { delete_one(false, 5, true, 5) } }
 harness_sync! { #[kani::unwind(10)] fn c07_delete_consumer_keeps_consumer_t() { delete_one(false, 5, false, 6) } }
 harness_sync! { #[kani::unwind(10)] fn c07_isolation_consumer_vs_group_same_id() { isolation(false, 5, true, 5) } }
-harness_sync! { #[kani::unwind(10)] fn c07_isolation_group_vs_consumer_same_id() { isolation(true, 5, false, 5) } }
+harness_sync! { #[kani::unwind(10)] fn c07_isolation_group_vs_consumer_same_id_t() { isolation(true, 5, false, 5) } }
 harness_sync! { #[kani::unwind(10)] fn c07_isolation_two_consumers_t() { isolation(false, 5, false, 6) } }
 harness_sync! { #[kani::unwind(10)] fn c07_isolation_two_groups_t() { isolation(true, 5, true, 6) } }
 
